@@ -88,44 +88,55 @@ def run(ctx: Ctx) -> int:
 	design_cex = coded.invariant_violated + coded.action_property_violated
 	ctx.log(f'TLC: deep header {sound.distinct} states OK; header as coded: {coded.distinct} states, violated at design level: {design_cex or "nothing"}')
 
-	edges_res = tlc.run('MCTranp', 'Tranp_runner_edges4.cfg' if quick else 'Tranp_runner_edges6.cfg', workers=1, timeout=900)
-	edges = [json.loads(line) for line in edges_res.lines('EDGE ')]
-	if not edges:
-		raise Machinery('no edges emitted')
-	replay = replay_edges('Chain', edges)
-	replay['graph'] = 'Chain'
-	ctx.log(f'replayed {replay["edges"]} edges ({replay["stats"].get("runs", 0)} real runs, {replay["stats"].get("texts_compared", 0)} output texts compared); {len(replay["failures"])} discrepancies')
-	violations = collect(ctx, 'C06', replay)
-	# the diamond a -> {b, c} -> d
-	dsound = tlc.run('MCTranp', 'TranpD_runner_sound.cfg', workers=16, timeout=900)
-	if not dsound.ok:
-		raise Machinery(f'TLC: the deep-header model violates a C06 clause on the diamond graph: {dsound.out[-1500:]}')
-	dres = tlc.run('MCTranp', 'TranpD_runner_edges4.cfg' if quick else 'TranpD_runner_edges5.cfg', workers=1, timeout=900)
-	dedges = [json.loads(line) for line in dres.lines('EDGE ')]
-	dreplay = replay_edges('Diamond', dedges)
-	dreplay['graph'] = 'Diamond'
-	ctx.log(f'diamond graph: deep header {dsound.distinct} states OK; replayed {dreplay["edges"]} edges ({dreplay["stats"].get("runs", 0)} real runs); {len(dreplay["failures"])} discrepancies')
-	seen = {v.key for v in violations}
-	violations += [v for v in collect(ctx, 'C06', dreplay) if v.key not in seen]
-	# the pair b -> c with a third variant: the top module edited to a BLANK source (and back)
-	pres = tlc.run('MCTranp', 'TranpP_runner_edges4.cfg' if quick else 'TranpP_runner_edges5.cfg', workers=1, timeout=900)
-	pedges = [json.loads(line) for line in pres.lines('EDGE ')]
-	if not pedges:
-		raise Machinery('no edges emitted by TranpP_runner_edges')
-	preplay = replay_edges('Pair', pedges)
-	preplay['graph'] = 'Pair'
-	ctx.log(f'pair graph with a blank variant: replayed {preplay["edges"]} edges ({preplay["stats"].get("runs", 0)} real runs); {len(preplay["failures"])} discrepancies')
-	seen = {v.key for v in violations}
-	violations += [v for v in collect(ctx, 'C06', preplay) if v.key not in seen]
-	# long behaviours: random walks chosen by TLC, replayed step by step through the real runner
+	# the four replays are independent: they share one pool of worker processes (started here, before any thread)
+	from concurrent.futures import ProcessPoolExecutor, ThreadPoolExecutor
 	from harness.fs_replay import replay_walks
-	wres = tlc.run('TranpWalk', 'TranpWalk_runner.cfg', workers=1, timeout=900, seed=ctx.seed + 1)
-	wedges = [json.loads(line) for line in wres.lines('EDGE ')]
-	wreplay = replay_walks('Chain', wedges)
-	wreplay['graph'] = 'Chain'
+	pool = ProcessPoolExecutor(max_workers=16)
+	list(pool.map(int, range(64)))
+
+	def edge_stage(graph: str, sound_cfg: str | None, edges_cfg: str) -> dict:
+		snd = None
+		if sound_cfg:
+			snd = tlc.run('MCTranp', sound_cfg, workers=4, timeout=900)
+			if not snd.ok:
+				raise Machinery(f'TLC: the deep-header model violates a C06 clause on the {graph} graph: {snd.out[-1500:]}')
+		res = tlc.run('MCTranp', edges_cfg, workers=1, timeout=900)
+		es = [json.loads(line) for line in res.lines('EDGE ')]
+		if not es:
+			raise Machinery(f'no edges emitted by {edges_cfg}')
+		rep = replay_edges(graph, es, pool=pool)
+		rep['graph'] = graph
+		rep['sound'] = snd.distinct if snd else 0
+		rep['edge_list'] = es
+		return rep
+
+	def walk_stage() -> dict:
+		wres = tlc.run('TranpWalk', 'TranpWalk_runner.cfg', workers=1, timeout=900, seed=ctx.seed + 1)
+		rep = replay_walks('Chain', [json.loads(line) for line in wres.lines('EDGE ')], pool=pool)
+		rep['graph'] = 'Chain'
+		return rep
+
+	try:
+		with ThreadPoolExecutor(max_workers=4) as tex:
+			f_chain = tex.submit(edge_stage, 'Chain', None, 'Tranp_runner_edges4.cfg' if quick else 'Tranp_runner_edges6.cfg')
+			# the diamond a -> {b, c} -> d
+			f_diamond = tex.submit(edge_stage, 'Diamond', 'TranpD_runner_sound.cfg', 'TranpD_runner_edges4.cfg' if quick else 'TranpD_runner_edges5.cfg')
+			# the pair b -> c with a third variant: the top module edited to a BLANK source (and back)
+			f_pair = tex.submit(edge_stage, 'Pair', None, 'TranpP_runner_edges4.cfg' if quick else 'TranpP_runner_edges5.cfg')
+			# long behaviours: random walks chosen by TLC, replayed step by step through the real runner
+			f_walk = tex.submit(walk_stage)
+			replay, dreplay, preplay, wreplay = f_chain.result(), f_diamond.result(), f_pair.result(), f_walk.result()
+	finally:
+		pool.shutdown()
+	edges = replay['edge_list']
+	ctx.log(f'replayed {replay["edges"]} edges ({replay["stats"].get("runs", 0)} real runs, {replay["stats"].get("texts_compared", 0)} output texts compared); {len(replay["failures"])} discrepancies')
+	ctx.log(f'diamond graph: deep header {dreplay["sound"]} states OK; replayed {dreplay["edges"]} edges ({dreplay["stats"].get("runs", 0)} real runs); {len(dreplay["failures"])} discrepancies')
+	ctx.log(f'pair graph with a blank variant: replayed {preplay["edges"]} edges ({preplay["stats"].get("runs", 0)} real runs); {len(preplay["failures"])} discrepancies')
 	ctx.log(f'random walks: {wreplay["jobs"]} behaviours of up to {wreplay["longest"]} operations from TranpWalk.tla replayed ({wreplay["stats"].get("runs", 0)} real runs); {len(wreplay["failures"])} discrepancies')
-	seen = {v.key for v in violations}
-	violations += [v for v in collect(ctx, 'C06', wreplay) if v.key not in seen]
+	violations = []
+	for rep in (replay, dreplay, preplay, wreplay):
+		seen = {v.key for v in violations}
+		violations += [v for v in collect(ctx, 'C06', rep) if v.key not in seen]
 	v2, extra = outpath_cases(ctx)
 	violations += v2
 	ctx.log(f'OutPath: {extra["outpath_cases"]} mapping cases, {extra["headers_round_tripped"]} headers round-tripped')
